@@ -256,6 +256,9 @@ func (s *PlaySc) Shrinks(try func(core.Scenario) bool) bool {
 	}
 	for i := range s.Tracks {
 		for j, e := range s.Tracks[i] {
+			if core.ShrinkOver() {
+				return false
+			}
 			if e.Delta != 0 {
 				c := s.clone()
 				c.Tracks[i][j].Delta = 0
